@@ -101,6 +101,8 @@ def expected_value(w, attr_uri, vspec):
         if du is UNKNOWN:
             return UNKNOWN
         if du.startswith(pools.XSD_URI) and du[len(pools.XSD_URI):] in NATIVE:
+            if text in pools.UNPYTHONABLE_DATETIMES:
+                return UNKNOWN  # no Python value exists: how it is stored is not promised
             return NATIVE[du[len(pools.XSD_URI):]](text)
         if du.startswith(pools.XSD_URI):
             return UNKNOWN  # an XSD type outside the property's list: how it is stored is not promised
